@@ -258,6 +258,7 @@ func unfoldAlias(c *simkit.Choices, x *simkit.Ctx) *simkit.Violation {
 	st.ProbeN("gc-at-event-boundary", gcCount)
 	for i, k := range keep {
 		now := k.get()
+		x.ObserveStr(model.Render(now))
 		if !model.DeepEq(k.snap, now) {
 			return &simkit.Violation{Kind: "alias", Site: site + "/" + te.Name,
 				Detail: fmt.Sprintf("target %d changed after it was unfolded (buffers scribbled / further documents / GC): right after unfolding %s | now %s", i, model.Render(k.snap), model.Render(now)), Scenario: sc}
